@@ -1,4 +1,6 @@
-//! Independent instruction-level reference model of the Minirechner 2a (prototype).
+//! Independent instruction-level reference model of the Minirechner 2a (DESIGN.md Appendix A).
+//! Written at instruction level: no sequencer, no pending writes, own arithmetic.
+#![allow(dead_code)]
 use emulator_2a_lib::machine::Bus;
 
 #[derive(Clone)]
@@ -14,7 +16,18 @@ pub struct Ref {
     pub steps: u32,
 }
 #[derive(Debug, PartialEq, Clone, Copy)]
-pub enum Outcome { Done, Stopped, ErrorOp0, Hang }
+pub enum Outcome {
+    /// instruction completed
+    Done,
+    /// opcode 0x01 fetched
+    Stopped,
+    /// opcode 0x00 fetched
+    ErrorOp0,
+    /// undefined first byte (0x4C-0x4F, 0xE0-0xEF): never completes
+    Hang,
+    /// second byte outside the defined second-byte set: behaviour not specified
+    Undefined,
+}
 
 const C: u8 = 1; const Z: u8 = 2; const N: u8 = 4;
 
@@ -113,7 +126,7 @@ impl Ref {
                 let op2 = self.fetch();
                 let d2 = (op2 & 3) as usize; let m2 = (op2 >> 2) & 3;
                 match op2 >> 4 {
-                    0x0 => match op2 { 0 => return Outcome::ErrorOp0, 1 => return Outcome::Stopped, _ => { self.interrupt_entry(); } },
+                    0x0 => return Outcome::Undefined,
                     0x1 => match m2 {
                         0 => self.r[d2] = src,
                         1 => { let a = self.r[d2]; self.wr(a, src) }
@@ -122,7 +135,7 @@ impl Ref {
                     },
                     0x2 => { let (dv, _) = self.operand(m2, d2); let r = dv.wrapping_sub(src); self.flags(dv < src, r) }
                     0x3 => { let (dv, _) = self.operand(m2, d2); let r = dv & src; self.flags(false, r) }
-                    0x4 => match m2 { 0 => { self.sp = src; self.flags(false, src) } 1 => { self.fr = src } _ => return Outcome::Hang },
+                    0x4 => match m2 { 0 => { self.sp = src; self.flags(false, src) } 1 => { self.fr = src } _ => return Outcome::Undefined },
                     0x5 | 0x6 => {
                         let f = |dv: u8| if op2 >> 4 == 5 { dv | src } else { dv & !src };
                         match m2 {
@@ -135,7 +148,7 @@ impl Ref {
                                    self.flags(false, r); self.wr(p2, r); self.r[d2] = self.r[d2].wrapping_add(1) }
                         }
                     }
-                    _ => return Outcome::Hang,
+                    _ => return Outcome::Undefined,
                 }
             }
         }
